@@ -125,6 +125,27 @@ theorem slots_finite {π : Type} {sel : Selector π} (hsel : SelOK sel) (thr : X
   · rw [h]; exact h0
   · rw [h1]; exact hroot _ (List.getElem_mem hk) h2 h3
 
+/-- Warm-started roots (`reuse_preconditioner`; `frequent_directions`, where the sketch being updated IS the stored packed
+preconditioner, and low-rank packed slots in general — the slot value is any type `π`): the root result may depend on the
+value currently stored. If the root maps a good stored value to a good candidate whenever its reported error passes the
+gate, the stored value stays good for ever — a single accepted bad candidate is what would poison the sketch. -/
+theorem slots_finite_warm_start {π : Type} {sel : Selector π} (hsel : SelOK sel) (thr : XF) (hthr : thr.isNaN = false)
+    (itv count n : Nat) (root : WarmRoot π) (Good : π → Prop) (s0 : Slot π) (h0 : Good s0.precond)
+    (hroot : ∀ c p, Good p → (root c p).err.isNaN = false → (root c p).err.lt thr = true → Good (root c p).cand) :
+    Good (slotRunDep sel thr itv root count s0 n).precond :=
+  slotRunDep_good hsel hthr itv root Good hroot n count s0 h0
+
+/-- One warm-started step obeys the same gate specification: kept, or the candidate computed from the stored value with a
+non-NaN error below the threshold on a refresh step. -/
+theorem warm_start_step_spec {π : Type} {sel : Selector π} (hsel : SelOK sel) (thr : XF) (hthr : thr.isNaN = false)
+    (itv count : Nat) (root : WarmRoot π) (s : Slot π) :
+    (slotStepDep sel thr itv count root s).precond = s.precond
+      ∨ ((slotStepDep sel thr itv count root s).precond = (root count s.precond).cand
+          ∧ count % itv = 0 ∧ (root count s.precond).err.isNaN = false ∧ (root count s.precond).err.lt thr = true) := by
+  rcases slotStep_spec hsel hthr itv count s (root count s.precond) with h | ⟨h, hp, h2, h3⟩
+  · exact Or.inl h
+  · exact Or.inr ⟨h, by simpa [performStep] using hp, h2, h3⟩
+
 /-- The whole optimizer state (all slots driven by the same counter, any number of slots): if all initial
 preconditioners are good and every candidate whose error passes the gate is good, every stored
 preconditioner is good after every fault history. -/
